@@ -209,6 +209,8 @@ def LARGE(arr, n):
     n = utils.parse_number(n)
     if isinstance(n, error.XLError):
         return n
-    if n < 1 or n > len(arr):
+    # count the items, not the rows: the array may be a grid or a column of one-cell rows
+    values = sorted(utils.inumbers(arr, try_parse=True, text_is_zero=True))
+    if n < 1 or n > len(values):
         return error.NUM
-    return sorted(utils.inumbers(arr, try_parse=True, text_is_zero=True))[-n]
+    return values[-n]
